@@ -23,7 +23,8 @@ SPEC = {
         "standard-library axioms ClassicalDedekindReals.sig_forall_dec, ClassicalDedekindReals.sig_not_dec, "
         "FunctionalExtensionality.functional_extensionality_dep, Classical_Prop.classic for every theorem that mentions a float "
         "conversion; C23_gap additionally uses them through Bminus_correct/binary_normalize_correct/Bltb_correct (Proofs/F64_real.v). "
-        "C23_count, C23_count_rows, C23_gap_pointwise, C23_gap_guard_sound are closed under the global context",
+        "C23_count, C23_min_spec, C23_max_spec, C23_min_perm, C23_max_perm, C23_gap_pointwise, C23_gap_guard_sound are closed under the "
+        "global context (the ordering facts via the key embedding are axiom-free)",
         "assumption that Go on amd64 implements float32/float64 +,-,/,<,> and int->float, float64<->float32 conversions as IEEE-754 "
         "round-to-nearest-even single-rounding operations (Base/FGen.v, F32.v, F64.v); tied by bit-exact differential evaluation",
         "hand-written model coq/Model/Uda.v of uda/{count,min,max,avg,gap}.Accum/Output and uda.ColumnToFloat32/64, tied by in-Coq "
